@@ -80,6 +80,15 @@ def run(ctx):
             else:             # bad value
                 key, val = name, rng.choice([-1, 2**70, 1.5, b"\x01", "x", None])
             items.append((key, val))
+        if items and it % 3 == 0:
+            # the same key more than once (same spelling and the other spelling), with different values: each
+            # occurrence is an item of its own, in the position given
+            k0, v0 = rng.choice(items)
+            if good_item(k0, v0):
+                ty0 = key_ty(k0)
+                for _ in range(rng.randrange(1, 4)):
+                    if len(items) < 66:
+                        items.insert(rng.randrange(len(items) + 1), (k0, cfgval(rng, ty0) if ty0 else v0))
         lay, tr, pos = rng.choice([0, 1, 2, 4, 7, 255]), rng.choice([0, 1, 2, 3]), rng.choice([0, 1, 64, 65535])
         cases.append((lay, tr, pos, items))
         cmds.append("CFGSET %x %x %s" % (lay, tr, " ".join("%s=%s" % (kstr(k), impl.show_val(v)) for k, v in items)))
